@@ -2,6 +2,7 @@ package main
 
 import (
 	"bufio"
+	"context"
 	"fmt"
 	"io"
 	"os"
@@ -44,7 +45,12 @@ const prelude = `(set-option :produce-models true)
 (define-sort ByteArr () (Array (_ BitVec 64) (_ BitVec 8)))
 `
 
-func declsFor(terms []*Term) string {
+func declsFor(terms []*Term) string { return declsWith(terms, nil) }
+
+// declsWith declares every free symbol of the terms; abbreviations (leaf.Def != nil) become define-fun, emitted
+// after everything their definitions mention. render, if given, renders definition bodies (used by the
+// arithmetic abstraction).
+func declsWith(terms []*Term, render func(*Term) string) string {
 	leaves := map[string]*Term{}
 	for _, t := range terms {
 		t.leaves(leaves)
@@ -61,13 +67,33 @@ func declsFor(terms []*Term) string {
 		fmt.Fprintf(&sb, "(declare-fun %s (%s) %s)\n", d.name, strings.Join(d.args, " "), d.ret)
 	}
 	ufMu.Unlock()
+	var defs []*Term
 	for _, n := range names {
 		if strings.HasPrefix(n, "(") {
 			continue
 		}
+		if leaves[n].Def != nil {
+			defs = append(defs, leaves[n])
+			continue
+		}
 		fmt.Fprintf(&sb, "(declare-const %s %s)\n", n, sortOf(leaves[n]))
 	}
+	// definitions in creation order: a definition only mentions earlier ones
+	sort.Slice(defs, func(i, j int) bool { return defNum(defs[i]) < defNum(defs[j]) })
+	for _, d := range defs {
+		body := d.Def.String()
+		if render != nil {
+			body = render(d.Def)
+		}
+		fmt.Fprintf(&sb, "(define-fun %s () %s %s)\n", d.Leaf, sortOf(d), body)
+	}
 	return sb.String()
+}
+
+func defNum(t *Term) int {
+	n := 0
+	fmt.Sscanf(t.Leaf, "d!%d", &n)
+	return n
 }
 
 var hardOps = map[string]bool{"bvudiv": true, "bvurem": true, "bvsdiv": true, "bvsrem": true, "bvmul": true}
@@ -134,17 +160,22 @@ func ScriptAbs(asserts []*Term) string {
 		renderAbs(a, &body, ufs)
 		body.WriteString(")\n")
 	}
+	decls := declsWith(asserts, func(t *Term) string {
+		var b strings.Builder
+		renderAbs(t, &b, ufs)
+		return b.String()
+	})
 	if len(ufs) == 0 {
 		return ""
 	}
 	var sb strings.Builder
 	sb.WriteString(prelude)
-	sb.WriteString(declsFor(asserts))
 	for k, d := range ufs {
 		if !strings.HasPrefix(k, "ax:") {
 			sb.WriteString(d + "\n")
 		}
 	}
+	sb.WriteString(decls)
 	for k, d := range ufs {
 		if strings.HasPrefix(k, "ax:") {
 			sb.WriteString(d + "\n")
@@ -188,21 +219,27 @@ type Result struct {
 	Dur    time.Duration
 }
 
-func runSolver(name string, argv []string, script string, timeout time.Duration) Result {
+type solverTask struct {
+	solver string
+	script string
+	tag    string // appended to the solver name in the result ("+uf-abstraction", ...)
+	onlyUnsat bool // an abstraction: only unsat is conclusive
+}
+
+var solverArgv = map[string]func(time.Duration) []string{
+	"z3-new": func(t time.Duration) []string { return []string{"z3-new", "-in", fmt.Sprintf("-T:%d", int(t.Seconds())+1)} },
+	"cvc5":   func(t time.Duration) []string { return []string{"cvc5", "--lang=smt2", fmt.Sprintf("--tlimit=%d", t.Milliseconds())} },
+	"z3":     func(t time.Duration) []string { return []string{"z3", "-in", fmt.Sprintf("-T:%d", int(t.Seconds())+1)} },
+}
+
+func runSolverCtx(ctx context.Context, tk solverTask, timeout time.Duration) Result {
 	t0 := time.Now()
-	cmd := exec.Command(argv[0], argv[1:]...)
-	cmd.Stdin = strings.NewReader(script)
-	done := make(chan struct{})
-	var out []byte
-	go func() { out, _ = cmd.Output(); close(done) }()
-	select {
-	case <-done:
-	case <-time.After(timeout + 2*time.Second):
-		if cmd.Process != nil {
-			cmd.Process.Kill()
-		}
-		<-done
-	}
+	argv := solverArgv[tk.solver](timeout)
+	c2, cancel := context.WithTimeout(ctx, timeout+2*time.Second)
+	defer cancel()
+	cmd := exec.CommandContext(c2, argv[0], argv[1:]...)
+	cmd.Stdin = strings.NewReader(tk.script)
+	out, _ := cmd.Output()
 	d := time.Since(t0)
 	s := string(out)
 	first := strings.TrimSpace(strings.SplitN(s, "\n", 2)[0])
@@ -212,6 +249,10 @@ func runSolver(name string, argv []string, script string, timeout time.Duration)
 		st = first
 	case "timeout":
 		st = "timeout"
+	default:
+		if d >= timeout {
+			st = "timeout"
+		}
 	}
 	model := ""
 	if st == "sat" {
@@ -219,42 +260,55 @@ func runSolver(name string, argv []string, script string, timeout time.Duration)
 			model = s[i+1:]
 		}
 	}
-	return Result{Status: st, Solver: name, Model: model, Dur: d}
+	return Result{Status: st, Solver: tk.solver + tk.tag, Model: model, Dur: d}
 }
 
-// Race the back ends; first definite (sat/unsat) answer wins.
-func Race(script string, timeout time.Duration, solvers []string) Result {
-	type sv struct {
-		name string
-		argv []string
-	}
-	all := map[string][]string{
-		"z3-new": {"z3-new", "-in", fmt.Sprintf("-T:%d", int(timeout.Seconds()))},
-		"cvc5":   {"cvc5", "--lang=smt2", fmt.Sprintf("--tlimit=%d", timeout.Milliseconds())},
-		"z3":     {"z3", "-in", fmt.Sprintf("-T:%d", int(timeout.Seconds()))},
-	}
-	ch := make(chan Result, len(solvers))
-	for _, n := range solvers {
-		go func(n string) { ch <- runSolver(n, all[n], script, timeout) }(n)
+// raceTasks runs the tasks concurrently; the first conclusive answer wins and the other processes are killed.
+func raceTasks(tasks []solverTask, timeout time.Duration) Result {
+	t0 := time.Now()
+	ctx, cancel := context.WithCancel(context.Background())
+	defer cancel()
+	ch := make(chan Result, len(tasks))
+	for _, tk := range tasks {
+		go func(tk solverTask) {
+			r := runSolverCtx(ctx, tk, timeout)
+			if tk.onlyUnsat && r.Status != "unsat" {
+				r.Status = "unknown"
+			}
+			ch <- r
+		}(tk)
 	}
 	var last Result
-	for range solvers {
+	for range tasks {
 		r := <-ch
-		last = r
 		if r.Status == "sat" || r.Status == "unsat" {
+			r.Dur = time.Since(t0)
 			stats.mu.Lock()
 			stats.Queries++
 			stats.Time += r.Dur
-			stats.By[r.Solver]++
+			stats.By[strings.SplitN(r.Solver, "+", 2)[0]]++
 			stats.mu.Unlock()
 			return r
 		}
+		if last.Solver == "" || r.Status == "timeout" {
+			last = r
+		}
 	}
+	last.Dur = time.Since(t0)
 	stats.mu.Lock()
 	stats.Queries++
 	stats.Time += last.Dur
 	stats.mu.Unlock()
 	return last
+}
+
+// Race the back ends on one script; first definite (sat/unsat) answer wins.
+func Race(script string, timeout time.Duration, solvers []string) Result {
+	var tasks []solverTask
+	for _, n := range solvers {
+		tasks = append(tasks, solverTask{solver: n, script: script})
+	}
+	return raceTasks(tasks, timeout)
 }
 
 // ---- persistent incremental solver for feasibility pruning ----
@@ -267,6 +321,7 @@ type Inc struct {
 	out      *bufio.Reader
 	declared map[string]bool
 	nUF      int
+	cur      []*Term // assertion stack currently held by the solver, one push level per entry
 	N        int
 	T        time.Duration
 }
@@ -285,6 +340,7 @@ func NewInc() *Inc {
 		panic(err)
 	}
 	s := &Inc{cmd: cmd, in: in, out: bufio.NewReader(outp), declared: map[string]bool{}}
+	io.WriteString(in, "(set-option :global-declarations true)\n") // declarations survive pop
 	io.WriteString(in, prelude)
 	io.WriteString(in, "(set-option :timeout 1500)\n") // per check-sat, ms; unknown counts as feasible
 	return s
@@ -301,15 +357,27 @@ func (s *Inc) declare(terms []*Term) {
 	for _, t := range terms {
 		t.leaves(leaves)
 	}
+	var defs []*Term
 	for n, t := range leaves {
-		if !s.declared[n] && !strings.HasPrefix(n, "(") {
-			s.declared[n] = true
-			fmt.Fprintf(s.in, "(declare-const %s %s)\n", n, sortOf(t))
+		if s.declared[n] || strings.HasPrefix(n, "(") {
+			continue
 		}
+		s.declared[n] = true
+		if t.Def != nil {
+			defs = append(defs, t)
+			continue
+		}
+		fmt.Fprintf(s.in, "(declare-const %s %s)\n", n, sortOf(t))
+	}
+	sort.Slice(defs, func(i, j int) bool { return defNum(defs[i]) < defNum(defs[j]) })
+	for _, d := range defs {
+		fmt.Fprintf(s.in, "(define-fun %s () %s %s)\n", d.Leaf, sortOf(d), d.Def.String())
 	}
 }
 
 // Sat reports whether the conjunction is satisfiable (unknown counts as sat).
+// The solver's assertion stack mirrors the previous query: only the suffix that differs is popped / pushed, so
+// sibling paths (which share long path-condition prefixes) cost one small push each instead of a full re-send.
 func (s *Inc) Sat(asserts []*Term) bool {
 	for _, a := range asserts {
 		if a.IsFalse() {
@@ -318,14 +386,25 @@ func (s *Inc) Sat(asserts []*Term) bool {
 	}
 	t0 := time.Now()
 	s.declare(asserts)
-	io.WriteString(s.in, "(push)\n")
+	var want []*Term
 	for _, a := range asserts {
 		if a.IsTrue() || strings.Contains(a.String(), "(forall ") {
 			continue // quantified facts are dropped for pruning (over-approximation of feasibility)
 		}
-		fmt.Fprintf(s.in, "(assert %s)\n", a.String())
+		want = append(want, a)
 	}
-	io.WriteString(s.in, "(check-sat)\n(pop)\n")
+	i := 0
+	for i < len(s.cur) && i < len(want) && (s.cur[i] == want[i] || s.cur[i].String() == want[i].String()) {
+		i++
+	}
+	if n := len(s.cur) - i; n > 0 {
+		fmt.Fprintf(s.in, "(pop %d)\n", n)
+	}
+	for _, a := range want[i:] {
+		fmt.Fprintf(s.in, "(push)\n(assert %s)\n", a.String())
+	}
+	s.cur = append(s.cur[:i:i], want[i:]...)
+	io.WriteString(s.in, "(check-sat)\n")
 	line, err := s.out.ReadString('\n')
 	if err != nil {
 		panic("incremental solver died: " + err.Error())
